@@ -335,6 +335,7 @@ Section Steps.
       destruct (ops t) as [|o rest] eqn:Eops.
       { unfold step_ok; cbn [fst snd exec]. split; [exact I|split; [|cbn; left; reflexivity]].
         unfold ThrOk. rewrite Epc, Eops. cbn. auto. }
+      assert (Hn0 : no_reset (ops t)) by (rewrite Eops; exact Hn).
       destruct o as [sub base tgt|r|k st ex tgt|h now|].
       + (* create: Incr *)
         destruct f; [apply step_finish; auto; exact I|].
@@ -342,13 +343,13 @@ Section Steps.
         destruct (valid_create (cl t) sub tgt).
         * split; [|cbn; unfold guards_of; rewrite Epc; cbn; left; reflexivity].
           apply ok_goto; auto using H_ok_mono, O_ok_mono. cbn. apply upd_n_same.
-        * split; [|cbn; right; reflexivity]. apply ok_finish; auto using H_ok_mono, O_ok_mono. exact I.
+        * split; [|cbn; right; reflexivity]. apply ok_finish; auto using H_ok_mono, O_ok_mono; try exact I.
       + (* delete: Get record *)
         destruct f; [apply step_finish; auto; exact I|].
         destruct (recs s (resolve t r)) as [m|] eqn:Er; [|apply step_finish; auto; exact I].
         destruct (negb (N.eqb (r_client m) (cl t))) eqn:Ec; [apply step_finish; auto; exact I|].
         apply negb_false_iff, N.eqb_eq in Ec.
-        apply step_goto_none; auto.
+        apply step_goto_none; [assumption|assumption|assumption| |].
         * cbn. split; [|discriminate]. destruct (Hrec _ _ Er) as [H1 _]. rewrite Ec in H1. exact H1.
         * unfold guards_of. rewrite Epc. cbn. left; reflexivity.
       + (* update: Get record *)
@@ -359,17 +360,17 @@ Section Steps.
         destruct (N.eqb tgt 0); [apply step_finish; auto; exact I|].
         apply negb_false_iff, andb_prop in Ec. destruct Ec as [E1 E2].
         apply name_eqb_eq in E1. apply N.eqb_eq in E2.
-        apply step_goto_none; auto.
+        apply step_goto_none; [assumption|assumption|assumption| |].
         * cbn. destruct (Hrec _ _ Er) as [H1 _]. rewrite E1, E2 in H1. exact H1.
         * unfold guards_of. rewrite Epc. cbn. left; reflexivity.
       + (* lookup: Get index *)
         destruct f; [apply step_finish; auto; exact I|].
         destruct (idx s (extractDomain h)) as [i|] eqn:Ei; [|apply step_finish; auto; apply fallback_ok].
-        apply step_goto_none; auto.
+        apply step_goto_none; [assumption|assumption|assumption| |].
         * cbn. split; [reflexivity|]. rewrite Hidx in Ei. exact (holder_in _ _ _ Ei).
         * unfold guards_of. rewrite Epc. cbn. left; reflexivity.
       + (* the counter never disappears in this development *)
-        exfalso. apply (Hn OResetCounter); [rewrite Eops; now left|reflexivity].
+        exfalso. apply (Hn OResetCounter); [now left|reflexivity].
     - (* SetNX on the index *)
       destruct f; [apply step_finish; auto; exact I|].
       destruct (idx s n) as [j|] eqn:Ei; [apply step_finish; auto; exact I|].
@@ -378,17 +379,17 @@ Section Steps.
       apply ok_goto; auto using H_ok_mono, O_ok_mono. cbn. now left.
     - (* Set record *)
       destruct f.
-      + unfold rollback_after_setrec. apply step_goto_none; auto.
-        * cbn. split; [exact Hpc|discriminate].
-        * unfold guards_of. rewrite Epc. cbn. left; reflexivity.
+      + unfold rollback_after_setrec. apply step_goto_none; [assumption|assumption|assumption| |].
+ * cbn. split; [exact Hpc|discriminate].
+ * unfold guards_of. rewrite Epc. cbn. left; reflexivity.
       + unfold step_ok; cbn [fst snd]. split; [exact Hpc|].
         split; [|cbn; unfold guards_of; rewrite Epc; cbn; left; reflexivity].
         apply ok_goto; auto using H_ok_mono, O_ok_mono. cbn. right. exact Hpc.
     - (* Append to the client list *)
       destruct f.
-      + unfold rollback_after_append. apply step_goto_none; auto.
-        * cbn. split; [exact Hpc|discriminate].
-        * unfold guards_of. rewrite Epc. cbn. left; reflexivity.
+      + unfold rollback_after_append. apply step_goto_none; [assumption|assumption|assumption| |].
+ * cbn. split; [exact Hpc|discriminate].
+ * unfold guards_of. rewrite Epc. cbn. left; reflexivity.
       + unfold step_ok; cbn [fst snd]. split; [exact I|split; [|cbn; right; reflexivity]].
         apply ok_finish_created; auto using H_ok_mono, O_ok_mono.
     - (* removeMappingKeys *)
@@ -404,26 +405,26 @@ Section Steps.
         * cbn. unfold guards_of. rewrite Epc. cbn. auto.
       + (* Get index *)
         destruct f.
-        { apply step_goto_none; auto; [cbn; split; [exact Hc|discriminate]|].
+        { apply step_goto_none; [assumption|assumption|assumption|cbn; split; [exact Hc|discriminate]|].
           unfold guards_of. rewrite Epc. cbn. left; reflexivity. }
         destruct (idx s n) as [j|] eqn:Ei.
         * destruct (N.eqb j i) eqn:Ej.
-          -- apply N.eqb_eq in Ej. subst j. apply step_goto_none; auto; [cbn; split; [exact Hc|intros _; exact Ei]|].
+          -- apply N.eqb_eq in Ej. subst j. apply step_goto_none; [assumption|assumption|assumption|cbn; split; [exact Hc|intros _; exact Ei]|].
              unfold guards_of. rewrite Epc. cbn. left; reflexivity.
-          -- apply step_goto_none; auto; [cbn; split; [exact Hc|discriminate]|].
+          -- apply step_goto_none; [assumption|assumption|assumption|cbn; split; [exact Hc|discriminate]|].
              unfold guards_of. rewrite Epc. cbn. left; reflexivity.
-        * apply step_goto_none; auto; [cbn; split; [exact Hc|discriminate]|].
+        * apply step_goto_none; [assumption|assumption|assumption|cbn; split; [exact Hc|discriminate]|].
           unfold guards_of. rewrite Epc. cbn. left; reflexivity.
       + (* Delete index *)
         destruct f.
-        { apply step_goto_none; auto; [cbn; split; [exact Hc|discriminate]|].
+        { apply step_goto_none; [assumption|assumption|assumption|cbn; split; [exact Hc|discriminate]|].
           unfold guards_of. rewrite Epc. cbn. left; reflexivity. }
         unfold step_ok; cbn [fst snd]. split; [split; [now apply Hi|exact Hc]|split].
         * apply ok_goto; auto using H_ok_mono, O_ok_mono. cbn. split; [right; exact Hc|discriminate].
         * cbn. unfold guards_of. rewrite Epc. cbn. auto.
       + (* Delete record *)
         destruct f.
-        { apply step_goto_none; auto; [cbn; split; [exact Hc|discriminate]|].
+        { apply step_goto_none; [assumption|assumption|assumption|cbn; split; [exact Hc|discriminate]|].
           unfold guards_of. rewrite Epc. cbn. left; reflexivity. }
         unfold step_ok; cbn [fst snd]. split; [exact I|split].
         * apply ok_goto; auto using H_ok_mono, O_ok_mono. cbn. split; [exact Hc|discriminate].
@@ -438,11 +439,11 @@ Section Steps.
     - (* Remove from the client list *)
       destruct f; [apply step_finish; auto; exact I|].
       unfold step_ok; cbn [fst snd]. split; [exact I|split; [|cbn; right; reflexivity]].
-      apply ok_finish; auto using H_ok_mono, O_ok_mono. exact I.
+      apply ok_finish; auto using H_ok_mono, O_ok_mono; try exact I.
     - (* update: Set record *)
       destruct f; [apply step_finish; auto; exact I|].
       unfold step_ok; cbn [fst snd]. split; [exact Hpc|split; [|cbn; right; reflexivity]].
-      apply ok_finish; auto using H_ok_mono, O_ok_mono. exact I.
+      apply ok_finish; auto using H_ok_mono, O_ok_mono; try exact I.
     - (* lookup: Get record *)
       destruct Hpc as [En (c' & Hc')].
       destruct f; [apply step_finish; auto; exact I|].
@@ -454,3 +455,116 @@ Section Steps.
       rewrite <- En, <- E1. split; assumption.
   Qed.
 End Steps.
+
+(* ------------------------------------------------------------------------------------------------ *)
+(* the system: any number of callers, any schedule                                                  *)
+(* ------------------------------------------------------------------------------------------------ *)
+
+Section Sys.
+  Variables reg cloud : name -> option pmap.
+  Notation dstepF := (dstep true true reg cloud).
+
+  Definition GInv (s : shared * list thr) : Prop :=
+    ShInv (fst s) /\
+    NoDup (all_guards (snd s)) /\
+    (forall i, In i (all_guards (snd s)) -> rguard (fst s) i = true) /\
+    (forall t, In t (snd s) -> ThrOk (fst s) t).
+
+  Lemma all_guards_app a b : all_guards (a ++ b) = all_guards a ++ all_guards b.
+  Proof. unfold all_guards. apply flat_map_app. Qed.
+
+  Lemma guards_incl x l : In x l -> incl (guards_of x) (all_guards l).
+  Proof.
+    intros Hin i Hi. unfold all_guards. apply in_flat_map. exists x. auto.
+  Qed.
+
+  Lemma rguard_exec a s i :
+    rguard (exec a s) i = match a with
+                          | ATake j => if N.eqb i j then true else rguard s i
+                          | ADrop j => if N.eqb i j then false else rguard s i
+                          | _ => rguard s i
+                          end.
+  Proof. destruct a; reflexivity. Qed.
+
+  Lemma ginv_step s k : GInv s -> GInv (sys_step _ _ dstepF s k).
+  Proof.
+    destruct s as [sh ls]. unfold GInv, sys_step. cbn [fst snd].
+    intros (Hs & Hnd & Hmk & Hth).
+    destruct (nth_error ls k) as [t|] eqn:Ek; [|cbn; auto].
+    unfold dstep. destruct (decide true true reg cloud t sh) as [t' a] eqn:Ed. cbn [fst snd].
+    destruct (nth_error_split_upd ls k t t' Ek) as (l1 & l2 & El & Eu). rewrite Eu. subst ls.
+    assert (Ht : ThrOk sh t) by (apply Hth, in_or_app; right; now left).
+    pose proof (decide_ok reg cloud sh t Hs Ht) as Hok. rewrite Ed in Hok.
+    destruct Hok as (Hpre & Hok' & Hgr). cbn [fst snd] in *.
+    rewrite all_guards_app in *. cbn [all_guards flat_map] in *. fold (all_guards l2) in *.
+    set (g1 := all_guards l1) in *. set (g2 := all_guards l2) in *.
+    (* callers other than the one that moved *)
+    assert (Hother : forall x, In x (l1 ++ l2) -> incl (guards_of x) (g1 ++ g2)).
+    { intros x Hx i Hi. apply in_app_or in Hx. apply in_or_app.
+      destruct Hx as [Hx|Hx]; [left|right]; exact (guards_incl x _ Hx i Hi). }
+    assert (Hthr : forall x, In x (l1 ++ l2) -> (forall n i c, a = AUnidx n i c -> ~ In i (g1 ++ g2)) -> ThrOk (exec a sh) x).
+    { intros x Hx Hg. apply thr_stable; auto.
+      - apply Hth. apply in_app_or in Hx. apply in_or_app. destruct Hx; [left|right; right]; assumption.
+      - intros n i c E Hi. apply (Hg n i c E). exact (Hother x Hx i Hi). }
+    assert (Hsplit : forall x, In x (l1 ++ t' :: l2) -> x = t' \/ In x (l1 ++ l2)).
+    { intros x Hx. apply in_app_or in Hx. destruct Hx as [Hx|[Hx|Hx]]; [right; apply in_or_app; now left|now left|right; apply in_or_app; now right]. }
+    split; [now apply sh_step|].
+    destruct a; cbn [guard_rel] in Hgr.
+    all: try solve [
+      destruct Hgr as [Hg|Hg]; rewrite Hg;
+      ((split; [|split]);
+       [ first [exact Hnd | exact (NoDup_app_drop_mid _ _ _ Hnd)]
+       | intros i0 Hi; rewrite rguard_exec; apply Hmk;
+         first [exact Hi | (apply in_app_or in Hi; apply in_or_app; destruct Hi as [Hi|Hi]; [left; exact Hi|right; apply in_or_app; right; exact Hi])]
+       | intros x Hx; destruct (Hsplit x Hx) as [->|Hx']; [exact Hok'|apply Hthr; [exact Hx'|intros; discriminate]] ]) ].
+    - (* ATake *)
+      destruct Hgr as (Hg0 & Hg1 & Hfree). rewrite Hg0 in Hnd, Hmk. rewrite Hg1. cbn [app] in Hnd, Hmk.
+      assert (Hni : ~ In i (g1 ++ g2)) by (intros Hin; apply Hmk in Hin; congruence).
+      split; [exact (NoDup_app_insert _ _ _ Hnd Hni)|split].
+      + intros j Hj. rewrite rguard_exec. destruct (N.eqb j i) eqn:E; [reflexivity|].
+        apply Hmk. apply in_app_or in Hj. apply in_or_app. destruct Hj as [Hj|[Hj|Hj]]; [now left| |now right].
+        apply N.eqb_neq in E. congruence.
+      + intros x Hx. destruct (Hsplit x Hx) as [->|Hx']; [exact Hok'|apply Hthr; [exact Hx'|intros; discriminate]].
+    - (* ADrop *)
+      destruct Hgr as (Hg0 & Hg1). rewrite Hg0 in Hnd, Hmk. rewrite Hg1. cbn [app].
+      pose proof (NoDup_mid_notin _ _ _ Hnd) as Hni.
+      split; [exact (NoDup_app_drop_mid _ _ _ Hnd)|split].
+      + intros j Hj. rewrite rguard_exec. destruct (N.eqb j i) eqn:E.
+        * apply N.eqb_eq in E. subst j. contradiction.
+        * apply Hmk. apply in_app_or in Hj. apply in_or_app. destruct Hj as [Hj|Hj]; [now left|right; now right].
+      + intros x Hx. destruct (Hsplit x Hx) as [->|Hx']; [exact Hok'|apply Hthr; [exact Hx'|intros; discriminate]].
+    - (* AUnidx *)
+      destruct Hgr as (Hg0 & Hg1). rewrite Hg0 in Hnd, Hmk. rewrite Hg1.
+      pose proof (NoDup_mid_notin _ _ _ Hnd) as Hni.
+      split; [exact Hnd|split].
+      + intros j Hj. rewrite rguard_exec. now apply Hmk.
+      + intros x Hx. destruct (Hsplit x Hx) as [->|Hx']; [exact Hok'|apply Hthr; [exact Hx'|]].
+        intros n0 i0 c0 E. inversion E; subst. exact Hni.
+  Qed.
+
+  (* callers at the start: idle, nothing created yet, scripts without counter loss *)
+  Definition fresh_thr (t : thr) : Prop := pc t = Idle /\ held t = [] /\ out t = [] /\ no_reset (ops t).
+
+  Lemma shinv_empty : ShInv empty_store.
+  Proof.
+    unfold ShInv, empty_store; cbn. split; [reflexivity|split; [exact I|split; [intros n i c []|split; [reflexivity|discriminate]]]].
+  Qed.
+
+  Lemma ginv_init ts : (forall t, In t ts -> fresh_thr t) -> GInv (empty_store, ts).
+  Proof.
+    intros Hf. assert (Hg : all_guards ts = []).
+    { unfold all_guards. induction ts as [|t r IH]; cbn; [reflexivity|].
+      destruct (Hf t (or_introl eq_refl)) as (Hp & _). unfold guards_of at 1. rewrite Hp. cbn.
+      apply IH. intros x Hx. apply Hf. now right. }
+    unfold GInv; cbn [fst snd]. rewrite Hg.
+    split; [exact shinv_empty|split; [constructor|split; [intros i []|]]].
+    intros t Ht. destruct (Hf t Ht) as (Hp & Hh & Ho & Hn).
+    unfold ThrOk, H_ok, O_ok. rewrite Hp, Hh, Ho. cbn. split; [intros i n []|split; [intros r []|split; [exact Hn|exact I]]].
+  Qed.
+
+  Theorem ginv_all_schedules ts sched :
+    (forall t, In t ts -> fresh_thr t) -> GInv (drun true true reg cloud empty_store ts sched).
+  Proof.
+    intros Hf. unfold drun. apply inv_all_schedules; [intros s i; apply ginv_step|now apply ginv_init].
+  Qed.
+End Sys.
